@@ -122,7 +122,9 @@ func c11rRun(sc c11rScenario) (vs []ev.V) {
 	probe := func(what string, take func(context.Context) error, release func()) {
 		got := 0
 		for i := 0; i < sc.N; i++ {
-			c, cancel := context.WithTimeout(context.Background(), 50*time.Millisecond)
+			// free permits are granted at once; the time-out only matters when one leaked (generous: the machine may be loaded,
+			// and a select with an expired context picks at random)
+			c, cancel := context.WithTimeout(context.Background(), 5*time.Second)
 			err := take(c)
 			cancel()
 			if err != nil {
